@@ -11,6 +11,8 @@
 #include "models/geod_lattice.hpp"
 #include <GeographicLib/Geodesic.hpp>
 #include <GeographicLib/GeodesicExact.hpp>
+#include <GeographicLib/GeodesicLine.hpp>
+#include <GeographicLib/GeodesicLineExact.hpp>
 #include <algorithm>
 #include <memory>
 
@@ -39,6 +41,19 @@ static bool finite(const Res& r) {
 }
 static ld angdiff(double a, double b) { ld d = remainderl((ld)a - (ld)b, 360.0L); return fabsl(d); }
 static double flip180(double a) { return a > 0 ? a - 180 : a + 180; }       // azimuth of the reversed direction (mod 360)
+
+
+// InverseLine with a given capability set: what the accessors of the returned line give
+struct LineObs { double arc, dist, ap_ret, ap_lat, ap_lon, dp_ret, dp_lat, dp_lon; };
+template <class G> static LineObs inverse_line_obs(const G& g, double lat1, double lon1, double lat2, double lon2, unsigned caps) {
+  LineObs o; auto l = g.InverseLine(lat1, lon1, lat2, lon2, caps);
+  o.arc = l.Arc(); o.dist = l.Distance();
+  double t; const unsigned om = Geodesic::LATITUDE | Geodesic::LONGITUDE;      // output bits only (bits 7, 8 + CAP bits that are masked off)
+  o.ap_lat = o.ap_lon = o.dp_lat = o.dp_lon = SENT;
+  o.ap_ret = l.GenPosition(true, o.arc, om, o.ap_lat, o.ap_lon, t, t, t, t, t, t);
+  o.dp_ret = l.GenPosition(false, o.dist, om, o.dp_lat, o.dp_lon, t, t, t, t, t, t);
+  return o;
+}
 
 int main(int argc, char** argv) {
   Ctx ctx(argc, argv);
@@ -302,6 +317,90 @@ int main(int argc, char** argv) {
       }
       ctx.worst(std::string("metric.symmetry.err_over_tol.") + svn, (double)(ws / (2 * tol)), E.name);
       ctx.worst(std::string("metric.triangle_excess_over_tol.") + svn, (double)(wt / (3 * tol)), E.name);
+    }
+  }
+  // =========================================================================================== InverseLine capabilities
+  // Contract (Geodesic.hpp / GeodesicLine.hpp): InverseLine "sets point 3 of the GeodesicLine to correspond to point 2 of the inverse
+  // geodesic problem"; SetArc: "the distance s13 is only set if the GeodesicLine object has been constructed with caps |= DISTANCE";
+  // SetDistance / Position by distance need DISTANCE_IN; InverseLine itself adds DISTANCE when DISTANCE_IN is requested ("ensure that a12
+  // can be converted to a distance"); LATITUDE and AZIMUTH are always added.  Hence, for every caps:
+  //   Arc() == a12 of GenInverse;  Distance() == s12 iff caps has the DISTANCE or the DISTANCE_IN bit, else NaN;
+  //   ArcPosition(Arc()) returns point 2 (lat always, lon iff LONGITUDE);  Position(Distance()) returns point 2 iff caps has DISTANCE_IN, else NaN;
+  //   the three solver classes show the same NaN pattern.
+  ctx.sub("inverse-line-caps");
+  ctx.bound("inverse-line-caps", "quick ellipsoids (thorough: all) x {Geodesic, GeodesicExact, Geodesic(exact=true)} x 6 pairs (generic, meridional, equatorial, nearly antipodal, 1 m, from a pole) x 18 capability sets {ALL, DISTANCE_IN|LATITUDE|LONGITUDE, DISTANCE_IN, DISTANCE|LATITUDE, LATITUDE|LONGITUDE|AZIMUTH, DISTANCE_IN|AREA, NONE, ALL&~DISTANCE, each of the 9 capability bits alone, DISTANCE|DISTANCE_IN|LONGITUDE}");
+  {
+    const double prs[6][4] = {{10, 0, 40, 70}, {-20, 15, 55, 15}, {0, -10, 0, 95}, {-30, 0, 29.9, 179.5}, {30, 0, 30.000006, 0.000007}, {90, 0, -35, 123}};
+    for (size_t ei = 0; ei < ells.size(); ++ei) {
+      const geodtab::Ell& E = ells[ei];
+      if (!T && !E.quick) continue;
+      if (!ctx.take()) continue;
+      Solvers S; S.make(E);
+      const ld tolv[3] = {geodtab::tol_series(E), geodtab::tol_exact(E), geodtab::tol_exact(E)};
+      for (int pq = 0; pq < 6; ++pq) {
+        const double la1 = prs[pq][0], lo1 = prs[pq][1], la2 = prs[pq][2], lo2 = prs[pq][3];
+        ld r2[3], N[3], Ev[3]; E.e.frame(la2, lo2, r2, N, Ev);
+        for (int ci = 0; ci < 18; ++ci) {
+          int pat[3] = {-1, -1, -1};
+          for (int sv = 0; sv < 3; ++sv) {
+            if (sv == 0 && !E.series) continue;
+            Ctx::Case cs(ctx);
+            // the capability sets are built from each class's own mask values
+            unsigned caps; std::string cname; bool hasD, hasDin, hasLon;
+            auto build = [&](unsigned ALL, unsigned LAT, unsigned LON, unsigned AZI, unsigned DIS, unsigned DIN, unsigned RED, unsigned SCA, unsigned ARE, unsigned UNR) {
+              const unsigned single[9] = {LAT, LON, AZI, DIS, DIN, RED, SCA, ARE, UNR}; static const char* sn[9] = {"LATITUDE", "LONGITUDE", "AZIMUTH", "DISTANCE", "DISTANCE_IN", "REDUCEDLENGTH", "GEODESICSCALE", "AREA", "LONG_UNROLL"};
+              switch (ci) {
+              case 0: caps = ALL; cname = "ALL"; break;
+              case 1: caps = DIN | LAT | LON; cname = "DISTANCE_IN|LATITUDE|LONGITUDE"; break;
+              case 2: caps = DIN; cname = "DISTANCE_IN"; break;
+              case 3: caps = DIS | LAT; cname = "DISTANCE|LATITUDE"; break;
+              case 4: caps = LAT | LON | AZI; cname = "LATITUDE|LONGITUDE|AZIMUTH"; break;
+              case 5: caps = DIN | ARE; cname = "DISTANCE_IN|AREA"; break;
+              case 6: caps = 0u; cname = "NONE"; break;
+              case 7: caps = ALL & ~DIS; cname = "ALL&~DISTANCE"; break;
+              case 17: caps = DIS | DIN | LON; cname = "DISTANCE|DISTANCE_IN|LONGITUDE"; break;
+              default: caps = single[ci - 8]; cname = sn[ci - 8];
+              }
+            };
+            if (sv == 1) build(GeodesicExact::ALL, GeodesicExact::LATITUDE, GeodesicExact::LONGITUDE, GeodesicExact::AZIMUTH, GeodesicExact::DISTANCE, GeodesicExact::DISTANCE_IN, GeodesicExact::REDUCEDLENGTH, GeodesicExact::GEODESICSCALE, GeodesicExact::AREA, GeodesicExact::LONG_UNROLL);
+            else build(Geodesic::ALL, Geodesic::LATITUDE, Geodesic::LONGITUDE, Geodesic::AZIMUTH, Geodesic::DISTANCE, Geodesic::DISTANCE_IN, Geodesic::REDUCEDLENGTH, Geodesic::GEODESICSCALE, Geodesic::AREA, Geodesic::LONG_UNROLL);
+            hasD = caps & (1u << 10); hasDin = caps & (1u << 11); hasLon = caps & (1u << 8);
+            const ld tol = tolv[sv]; const char* svn = svname(sv);
+            Res R = S.inv(sv, la1, lo1, la2, lo2);
+            LineObs o = sv == 0 ? inverse_line_obs(*S.gs, la1, lo1, la2, lo2, caps) : (sv == 1 ? inverse_line_obs(*S.ge, la1, lo1, la2, lo2, caps) : inverse_line_obs(*S.gx, la1, lo1, la2, lo2, caps));
+            ncalls += 2;
+            auto where = [&] { return E.name + " " + svn + " InverseLine(" + fmt(la1) + "," + fmt(lo1) + "," + fmt(la2) + "," + fmt(lo2) + ", caps=" + cname + ")"; };
+            auto bad = [&](const char* kind, const std::string& msg) { ctx.fail("e" + std::to_string(ei) + "/q" + std::to_string(pq) + "/c" + std::to_string(ci) + "/" + svn + "/" + kind, where() + ": " + msg, {{"kind", kind}, {"ell", E.name}, {"solver", svn}, {"caps", cname}}); };
+            const ld big = std::max(E.e.a, E.e.b);
+            // Arc()
+            if (!(fabsl((ld)o.arc - (ld)R.a12) * D * big <= tol)) bad("line-arc", "Arc() = " + fx(o.arc) + " but a12 of the inverse problem is " + fx(R.a12));
+            // Distance()
+            const bool wantD = hasD || hasDin;
+            if (wantD) { if (!(fabsl((ld)o.dist - (ld)R.s12) <= tol)) bad("line-distance", "Distance() = " + fx(o.dist) + " but s12 of the inverse problem is " + fx(R.s12) + " (the line has the distance capability)"); }
+            else if (!std::isnan(o.dist)) bad("line-distance", "Distance() = " + fx(o.dist) + " although the line was built without DISTANCE / DISTANCE_IN");
+            // point 3 == point 2, by arc and by distance
+            auto miss = [&](double la, double lo) -> ld {
+              if (!std::isfinite(la) || la == SENT) return INFINITY;
+              if (hasLon) { if (!std::isfinite(lo) || lo == SENT) return INFINITY; ld r[3], n2[3], e2[3]; E.e.frame(la, lo, r, n2, e2); return hypotl(hypotl(r[0] - r2[0], r[1] - r2[1]), r[2] - r2[2]) * E.e.a; }
+              return fabsl((ld)la - (ld)la2) * D * big;
+            };
+            const ld ptol = 4 * tol;       // inverse (tol) + direct by arc / distance (tol) + the two independent azimuth / length roundings
+            { ld e = miss(o.ap_lat, o.ap_lon); ctx.worstf(std::string("linecaps.arcposition.err_over_tol.") + svn, (double)(e / ptol), where);
+              if (!(e <= ptol) || std::isnan(o.ap_ret)) bad("line-arcposition", "ArcPosition(Arc()) gives lat " + fx(o.ap_lat) + " lon " + fx(o.ap_lon) + " (return " + fmt(o.ap_ret) + "), " + fmtl(e) + " m from point 2"); }
+            if (hasDin) { ld e = miss(o.dp_lat, o.dp_lon); ctx.worstf(std::string("linecaps.position.err_over_tol.") + svn, (double)(e / ptol), where);
+              if (!(e <= ptol) || std::isnan(o.dp_ret)) bad("line-position", "Position(Distance()) gives lat " + fx(o.dp_lat) + " lon " + fx(o.dp_lon) + " (return " + fmt(o.dp_ret) + ", Distance() = " + fx(o.dist) + "), " + fmtl(e) + " m from point 2 although the line has DISTANCE_IN"); }
+            else if (!std::isnan(o.dp_ret)) bad("line-position", "Position by distance returns " + fx(o.dp_ret) + " on a line without DISTANCE_IN (documented: NaN)");
+            pat[sv] = (std::isnan(o.arc) ? 1 : 0) | (std::isnan(o.dist) ? 2 : 0) | (std::isnan(o.ap_ret) ? 4 : 0) | (std::isnan(o.dp_ret) ? 8 : 0);
+            if (ctx.want_sample() && ci == 1) ctx.sample(where() + " -> Arc()=" + fmt(o.arc) + " Distance()=" + fmt(o.dist));
+          }
+          // the solver classes agree on what is NaN
+          for (int i = 0; i < 3; ++i) for (int j = i + 1; j < 3; ++j) if (pat[i] >= 0 && pat[j] >= 0 && pat[i] != pat[j]) {
+            Ctx::Case cs(ctx);
+            ctx.fail("e" + std::to_string(ei) + "/q" + std::to_string(pq) + "/c" + std::to_string(ci) + "/nanpattern" + std::to_string(i) + std::to_string(j), E.name + " pair " + std::to_string(pq) + " caps set " + std::to_string(ci) + ": " + svname(i) + " and " + svname(j) + " differ in which of Arc()/Distance()/ArcPosition/Position are NaN (" + std::to_string(pat[i]) + " vs " + std::to_string(pat[j]) + ")",
+                     {{"kind", "line-nan-pattern"}, {"ell", E.name}});
+          }
+        }
+      }
     }
   }
   // =========================================================================================== prolate, lon12 = 180
